@@ -283,7 +283,7 @@ func c20Run(b *core.B) {
 	r := b.Rng(2)
 	n := 200000
 	if b.Tier == core.Thorough {
-		n = 5000000
+		n = 20000000
 	}
 	pool := []string{"a", "b", " ", "é", "✓", "́", "‍", "😀", "\xff", "\xc3", "\xe2\x82", "<", "&"}
 	for i := 0; i < n/b.NBatches; i++ {
